@@ -397,11 +397,15 @@ def acceptSteps (rb : Rebuild) (b : Backend) (it : IntType) (dim : Nat) (kinds :
 
 def accept : Backend → IntType → Nat → List NoiseKind → Solver → Outcome := acceptV .repaired
 
-/-- What Pulser reports for the set of addressed channel bases (+ leakage): interaction type and
-level count. (Specification table; validated against the installed Pulser by the harness.) -/
-def pulserBasis (bases : List ChanBasis) (leak : Bool) : Option (IntType × Nat) :=
+/-- What Pulser reports (interaction type, level count) for the set of channel bases a sequence
+*pulses* (+ leakage); channels that are declared but never pulsed do not count, and a sequence that
+pulses nothing is reported as XY if it is in XY mode (a microwave channel is declared) and as
+ground-rydberg otherwise. (Specification table; validated against the installed Pulser by the
+harness.) -/
+def pulserBasis (declared pulsed : List ChanBasis) (leak : Bool) : Option (IntType × Nat) :=
   let l := if leak then 1 else 0
-  match bases with
+  match pulsed with
+  | [] => if declared.contains .xy then some (.xy, 2 + l) else some (.ising, 2 + l)
   | [.groundRydberg] => some (.ising, 2 + l)
   | [.digital] => some (.ising, 2 + l)
   | [.groundRydberg, .digital] => some (.ising, 3 + l)
@@ -409,14 +413,31 @@ def pulserBasis (bases : List ChanBasis) (leak : Bool) : Option (IntType × Nat)
   | [.xy] => some (.xy, 2 + l)
   | _ => none
 
+/-- Which bases the single-basis guard of `_extract_omega_delta_phi` counts: every *declared* one
+(the keys of the nested sample dict — the current tree), or only those with non-zero samples (the
+seeded change t11-C04, which still *selects* the samples by looking at the declared keys). -/
+inductive ExtractGuard | declared | used
+  deriving DecidableEq, Repr
+
+def extractOkG (g : ExtractGuard) (declared pulsed : List ChanBasis) : R Unit :=
+  match g with
+  | .declared => extractOk declared
+  | .used =>
+    if 1 < pulsed.length then .err .value
+    else if declared.contains .groundRydberg then .ok ()
+    else if declared.contains .xy then .ok ()
+    else .err .value
+
 /-- A Pulser sequence through `run()`: `PulserData.__init__`, then `get_sequences`
-(`_extract_omega_delta_phi` rejects every basis set but `{ground-rydberg}` and `{XY}`), then the
-back-end. `none` = Pulser cannot build a sequence addressing this set of bases. `fixed` as in
+(`_extract_omega_delta_phi` rejects every set of *declared* bases but `{ground-rydberg}` and
+`{XY}`), then the back-end. `declared` = bases of the declared channels, `pulsed ⊆ declared` =
+bases that are actually driven. `none` = Pulser cannot build such a sequence. `fixed` as in
 `acceptDev` (D22 fix: `run()` refuses DMRG + a non-empty noise model right after `PulserData` is
 built; it only changes *which* exception such a run gets). -/
-def acceptSequence (v : Variant) (fixed : Bool) (b : Backend) (bases : List ChanBasis) (leak : Bool)
-    (kinds : List NoiseKind) (s : Solver) : Option Outcome :=
-  match pulserBasis bases leak with
+def acceptSequenceG (g : ExtractGuard) (v : Variant) (fixed : Bool) (b : Backend)
+    (declared pulsed : List ChanBasis) (leak : Bool) (kinds : List NoiseKind) (s : Solver) :
+    Option Outcome :=
+  match pulserBasis declared pulsed leak with
   | none => none
   | some (it, dim) =>
     some <|
@@ -428,8 +449,39 @@ def acceptSequence (v : Variant) (fixed : Bool) (b : Backend) (bases : List Chan
         | .ok _ =>
           if fixed ∧ b = .mps ∧ s = .dmrg ∧ !kinds.isEmpty then .raise .notImpl
           else
-            match extractOk bases with
+            match extractOkG g declared pulsed with
             | .err e => .raise e
             | .ok () => acceptV v b it dim kinds s
+
+def acceptSequence : Variant → Bool → Backend → List ChanBasis → List ChanBasis → Bool →
+    List NoiseKind → Solver → Option Outcome := acceptSequenceG .declared
+
+/-! ## How the solver is requested -/
+
+/-- How `config.solver` is stored: the enum member `Solver.DMRG`, the documented plain string
+`"dmrg"`, or a string that came back from `to_abstract_repr`/`from_abstract_repr` (`Solver` is a
+`str` enum: all three compare equal, only the first is identical to the member). -/
+inductive SolverForm | member | string | roundTrip
+  deriving DecidableEq, Repr
+
+/-- How the code tests the option: `== Solver.DMRG` (by value, the current tree) or
+`is Solver.DMRG` (by identity, the seeded change t09-C33). -/
+inductive SolverTest | byValue | byIdentity
+  deriving DecidableEq, Repr
+
+/-- The branch the code takes for a solver requested in a given form. -/
+def recognised (t : SolverTest) (f : SolverForm) (s : Solver) : Solver :=
+  match t, f with
+  | .byValue, _ => s
+  | .byIdentity, .member => s
+  | .byIdentity, _ => .tdvp
+
+def createImplF (t : SolverTest) (f : SolverForm) (v : Variant) (s : Solver) (nOps : Nat)
+    (cfgNoise : Bool) (nAtoms : Nat) : R Impl :=
+  createImpl v (recognised t f s) nOps cfgNoise nAtoms
+
+def acceptSeqF (t : SolverTest) (f : SolverForm) (v : Variant) (b : Backend) (d : Seq) (s : Solver)
+    (cfgNoise : Bool) : Outcome :=
+  acceptSeq v b d (recognised t f s) cfgNoise
 
 end EmuVerif.Config
